@@ -140,3 +140,29 @@ func emptied(i int) *Case {
 	}
 	return c
 }
+
+// uncleanKey: a mount declared for the same container path by two layers, the later one spelling
+// the path uncleanly (trailing slash, `./` or `//` segment, `a/../b`): it is the same key, so a
+// single entry remains and the later layer wins.
+func uncleanKey(i int) *Case {
+	targets := []string{"/var/lib/postgresql/data/", "/var/lib/./postgresql/data", "/var/lib//postgresql/data", "/var/lib/x/../postgresql/data", "/var/lib/postgresql/data/."}
+	t := targets[i%len(targets)]
+	laterLong := (i/len(targets))%2 == 1
+	asDocs := (i/(2*len(targets)))%2 == 1
+	l1 := "services:\n  s:\n    image: img\n    volumes:\n      - dbdata:/var/lib/postgresql/data\n      - ./conf:/etc/postgresql\nvolumes:\n  dbdata: {}\n  other: {}\n"
+	l2 := "services:\n  s:\n    volumes:\n      - other:" + t + "\n"
+	if laterLong {
+		l2 = "services:\n  s:\n    volumes:\n      - {type: volume, source: other, target: " + t + "}\n"
+	}
+	target := "services:\n  s:\n    image: img\n    volumes:\n      - other:/var/lib/postgresql/data\n      - ./conf:/etc/postgresql\nvolumes:\n  dbdata: {}\n  other: {}\n"
+	c := &Case{Focus: "services.volumes (same target spelled uncleanly by the later layer)", Parts: 2}
+	c.Target = ld.Case{Files: map[string]string{"compose.yaml": target}, ComposeFiles: []string{"compose.yaml"}}
+	if asDocs {
+		c.Carrier = "documents"
+		c.Split = ld.Case{Files: map[string]string{"compose.yaml": l1 + "---\n" + l2}, ComposeFiles: []string{"compose.yaml"}}
+	} else {
+		c.Carrier = "files"
+		c.Split = ld.Case{Files: map[string]string{"compose.yaml": l1, "compose.1.yaml": l2}, ComposeFiles: []string{"compose.yaml", "compose.1.yaml"}}
+	}
+	return c
+}
